@@ -336,6 +336,35 @@ def _case(draw):
     return {"spec": spec, "rebuild": rebuild, "variant": variant, "probes": probes}
 
 
+def exhaustive(tier):
+    """declared values that are 'nearly the same': floats inside each other's validation tolerance, strings that read the
+    same with other code points, equal numbers of different kinds - with probes from the fringe between them"""
+    def wraps(s):
+        return [s, {"t": "list", "form": "typed", "elem": s}, {"t": "dict", "entries": [{"key": "k", "opt": False, "spec": s}], "relaxed": False},
+                {"t": "any", "alts": [s, {"t": "none"}]}]
+
+    def place(i, x):
+        return [x, [x], {"k": x}, x][i]
+    for x in (1.0, 0.3, -2.5e10, 1e-7):
+        for f in (1 + 8e-10, 1 - 8e-10, 1 + 1.6e-9, 1 + 2.2e-16):
+            a, b = {"t": "float", "value": x}, {"t": "float", "value": x * f}
+            fringe = [x, x * f, x * (1 - 5e-10), x * (1 + 5e-10), x * (1 + 1.3e-9), x * (1 - 1.3e-9), x * (1 + 2.1e-9)]
+            for i, (wa, wb) in enumerate(zip(wraps(a), wraps(b))):
+                yield {"spec": wa, "rebuild": wa, "variant": wb, "probes": [place(i, p) for p in fringe]}
+    for u, v in (("caf\u00e9", "cafe\u0301"), ("\u00c5", "\u212b"), ("\u2126", "\u03a9"), ("a", "\u0430"), ("ab", "ab "), ("", " ")):
+        for key in ("value", "substr", "alphabet", "pattern"):
+            a = {"t": "str", key: u, "order": [key] if key in ("substr", "alphabet") else []}
+            b = {"t": "str", key: v, "order": [key] if key in ("substr", "alphabet") else []}
+            for i, (wa, wb) in enumerate(zip(wraps(a), wraps(b))):
+                yield {"spec": wa, "rebuild": wa, "variant": wb, "probes": [place(i, p) for p in (u, v, u + v, "")]}
+    for u, v in ((1, 1.0), (0, False), (1, True), (b"a", "a")):
+        for ta, tb in (("int", "float"), ("int", "bool"), ("bytes", "str")):
+            if type(u).__name__ == ta and type(v).__name__ == tb:
+                a, b = {"t": ta, "value": u}, {"t": tb, "value": v}
+                for i, (wa, wb) in enumerate(zip(wraps(a), wraps(b))):
+                    yield {"spec": wa, "rebuild": wa, "variant": wb, "probes": [place(i, p) for p in (u, v, None)]}
+
+
 def _replace_float(draw, sp, node, y):
     """a value conforming to sp in which the float governed by `node` is y (only for shapes where that
     position is easy to find: the node itself, or a direct member of a dict / exact list)"""
